@@ -5,7 +5,7 @@
 From Coq Require Import List NArith ZArith Bool Lia.
 From ApiFu Require Import Base.Sexp.
 From ApiFu Require Syn.Ast Syn.ParserModel Syn.FrontEnd Syn.FrontEndProofs.
-From ApiFu Require Vld.Ast Vld.ValidatorModel Vld.ProofsCommon Vld.ProofsTotal.
+From ApiFu Require Vld.Ast Vld.ValidatorModel Vld.ProofsCommon Vld.ProofsTotal Vld.ValidatorProofs.
 From ApiFu Require Exe.ExecData Exe.ExecModel Exe.ExecSpec Exe.ExecHyps Exe.ExecProofs.
 From ApiFu Require Import Pipe.Convert Pipe.Compose Pipe.PositionsProofs.
 Import ListNotations.
@@ -14,36 +14,38 @@ Import ListNotations.
 Definition front_settled (r : front_result) : Prop :=
   match r with FPanic _ | FOutOfFuel _ => False | _ => True end.
 
-Theorem front_never_panics VS F bs : front_settled (parse_and_validate_bytes VS F bs).
+Section AnyOrder.
+Variable pi : Vld.ValidatorModel.order.
+Hypothesis Hpi : Vld.ProofsCommon.order_ok pi.
+
+Theorem front_never_panics VS F bs : front_settled (parse_and_validate_order pi VS F bs).
 Proof.
-  unfold parse_and_validate_bytes.
+  unfold parse_and_validate_order.
   destruct (Syn.FrontEndProofs.parse_document_bytes_never_panics bs) as (tree & es & Hp & Hne).
   rewrite Hp. destruct es as [|e es].
   - destruct tree as [d|]; [|exfalso; apply (Hne eq_refl); reflexivity].
     unfold validate_doc.
-    destruct (Vld.ProofsTotal.validate_no_panic Vld.ValidatorModel.id_order VS F (vld_of_syn d)
-                Vld.ProofsCommon.id_order_ok) as (errs & Hv).
+    destruct (Vld.ProofsTotal.validate_no_panic pi VS F (vld_of_syn d) Hpi) as (errs & Hv).
     rewrite Hv. destruct errs; exact I.
   - destruct tree; exact I.
 Qed.
 
 (** the three outcomes of ParseAndValidate, and what each means for the stages *)
 Theorem front_cases VS F bs :
-  (exists e es tree, parse_and_validate_bytes VS F bs = FSyntax e es /\
+  (exists e es tree, parse_and_validate_order pi VS F bs = FSyntax e es /\
                      Syn.FrontEnd.parse_document_bytes bs = Syn.ParserModel.Out tree (e :: es)) \/
-  (exists d e es, parse_and_validate_bytes VS F bs = FInvalid e es /\
+  (exists d e es, parse_and_validate_order pi VS F bs = FInvalid e es /\
                   Syn.FrontEnd.parse_document_bytes bs = Syn.ParserModel.Out (Some d) [] /\
-                  validate_doc VS F d = Vld.Ast.Done (e :: es)) \/
-  (exists d, parse_and_validate_bytes VS F bs = FAccepted d /\
+                  validate_doc pi VS F d = Vld.Ast.Done (e :: es)) \/
+  (exists d, parse_and_validate_order pi VS F bs = FAccepted d /\
              Syn.FrontEnd.parse_document_bytes bs = Syn.ParserModel.Out (Some d) [] /\
-             validate_doc VS F d = Vld.Ast.Done []).
+             validate_doc pi VS F d = Vld.Ast.Done []).
 Proof.
-  unfold parse_and_validate_bytes.
+  unfold parse_and_validate_order.
   destruct (Syn.FrontEndProofs.parse_document_bytes_never_panics bs) as (tree & es & Hp & Hne).
   rewrite Hp. destruct es as [|e es].
   - destruct tree as [d|]; [|exfalso; apply (Hne eq_refl); reflexivity].
-    destruct (Vld.ProofsTotal.validate_no_panic Vld.ValidatorModel.id_order VS F (vld_of_syn d)
-                Vld.ProofsCommon.id_order_ok) as (errs & Hv).
+    destruct (Vld.ProofsTotal.validate_no_panic pi VS F (vld_of_syn d) Hpi) as (errs & Hv).
     unfold validate_doc in *. rewrite Hv. destruct errs as [|e es].
     + right; right. exists d. auto.
     + right; left. exists d, e, es. auto.
@@ -118,9 +120,9 @@ Qed.
 (** ** the whole pipeline *)
 Theorem pipeline_never_panics VS F ES bs opname VE W :
   Exe.ExecHyps.type_names_okb ES = true ->
-  crashed (pipeline_model VS F ES bs opname VE W) = false.
+  crashed (pipeline_order pi VS F ES bs opname VE W) = false.
 Proof.
-  intro Hn. unfold pipeline_model.
+  intro Hn. unfold pipeline_order.
   destruct (front_cases VS F bs) as [(e & es & t & H & _)|[(d & e & es & H & _)|(d & H & _)]]; rewrite H; try reflexivity.
   destruct (execute_doc_cases ES d opname VE W Hn) as [(data & errs & Hr & _)|[Hr|[(c & Hr)|(x & o & E & Hr & _)]]];
     rewrite Hr; reflexivity.
@@ -130,15 +132,15 @@ Qed.
     contract, or a request whose @skip/@include conditions have no boolean value *)
 Theorem pipeline_cases VS F ES bs opname VE W :
   Exe.ExecHyps.type_names_okb ES = true ->
-  let r := pipeline_model VS F ES bs opname VE W in
+  let r := pipeline_order pi VS F ES bs opname VE W in
   (is_response r = true /\ data_or_errors_p r = true /\ serialisable_p r = true) \/
   contract_broken r = true \/
   (unevaluable r = true /\
-   exists d o E, VE = Some E /\ parse_and_validate_bytes VS F bs = FAccepted d /\
+   exists d o E, VE = Some E /\ parse_and_validate_order pi VS F bs = FAccepted d /\
                  Exe.ExecModel.get_operation (exe_of_syn d) opname = Exe.ExecModel.GOp o /\
                  Exe.ExecHyps.dirs_evaluable (Exe.ExecData.doc_of (exe_of_syn d) o) E = false).
 Proof.
-  intro Hn. unfold pipeline_model.
+  intro Hn. unfold pipeline_order.
   destruct (front_cases VS F bs) as [(e & es & t & H & _)|[(d & e & es & H & _)|(d & H & _)]]; rewrite H.
   - left. auto.
   - left. auto.
@@ -154,13 +156,13 @@ Qed.
 
 (** a response, whenever the conditions are evaluable and no contract check fails *)
 Definition request_evaluable VS F bs opname VE : Prop :=
-  forall d o E, VE = Some E -> parse_and_validate_bytes VS F bs = FAccepted d ->
+  forall d o E, VE = Some E -> parse_and_validate_order pi VS F bs = FAccepted d ->
                 Exe.ExecModel.get_operation (exe_of_syn d) opname = Exe.ExecModel.GOp o ->
                 Exe.ExecHyps.dirs_evaluable (Exe.ExecData.doc_of (exe_of_syn d) o) E = true.
 
 Theorem pipeline_total VS F ES bs opname VE W :
   Exe.ExecHyps.type_names_okb ES = true -> request_evaluable VS F bs opname VE ->
-  let r := pipeline_model VS F ES bs opname VE W in
+  let r := pipeline_order pi VS F ES bs opname VE W in
   is_response r = true \/ contract_broken r = true.
 Proof.
   intros Hn Hev r. destruct (pipeline_cases VS F ES bs opname VE W Hn) as [(H & _)|[H|(_ & d & o & E & HE & Ha & Hg & He)]].
@@ -171,17 +173,17 @@ Qed.
 
 Theorem pipeline_data_or_errors VS F ES bs opname VE W :
   Exe.ExecHyps.type_names_okb ES = true ->
-  is_response (pipeline_model VS F ES bs opname VE W) = true ->
-  data_or_errors_p (pipeline_model VS F ES bs opname VE W) = true.
+  is_response (pipeline_order pi VS F ES bs opname VE W) = true ->
+  data_or_errors_p (pipeline_order pi VS F ES bs opname VE W) = true.
 Proof.
   intros Hn Hr. destruct (pipeline_cases VS F ES bs opname VE W Hn) as [(_ & H & _)|[H|(H & _)]]; [exact H| |].
-  - destruct (pipeline_model VS F ES bs opname VE W); discriminate.
-  - destruct (pipeline_model VS F ES bs opname VE W); discriminate.
+  - destruct (pipeline_order pi VS F ES bs opname VE W); discriminate.
+  - destruct (pipeline_order pi VS F ES bs opname VE W); discriminate.
 Qed.
 
 Theorem pipeline_serialisable VS F ES bs opname VE W j errs :
   Exe.ExecHyps.type_names_okb ES = true ->
-  pipeline_model VS F ES bs opname VE W = PExecuted (Some j) errs ->
+  pipeline_order pi VS F ES bs opname VE W = PExecuted (Some j) errs ->
   Exe.ExecData.json_finite j = true.
 Proof.
   intros Hn Hr. destruct (pipeline_cases VS F ES bs opname VE W Hn) as [(_ & _ & H)|[H|(H & _)]];
@@ -196,7 +198,7 @@ Qed.
     every condition.  [VS] and [ES] must describe the same schema. *)
 Definition validate_establishes_doc_ok VS F ES : Prop :=
   forall bs d opname o E,
-    parse_and_validate_bytes VS F bs = FAccepted d ->
+    parse_and_validate_order pi VS F bs = FAccepted d ->
     Exe.ExecModel.get_operation (exe_of_syn d) opname = Exe.ExecModel.GOp o ->
     let D := Exe.ExecData.doc_of (exe_of_syn d) o in
     Exe.ExecHyps.dirs_evaluable D E = true ->
@@ -225,9 +227,9 @@ Theorem pipeline_response_if_obligations VS F ES bs opname VE W :
   Exe.ExecHyps.type_names_okb ES = true ->
   validate_establishes_doc_ok VS F ES -> text_positions_small bs ->
   request_evaluable VS F bs opname VE ->
-  is_response (pipeline_model VS F ES bs opname VE W) = true.
+  is_response (pipeline_order pi VS F ES bs opname VE W) = true.
 Proof.
-  intros Hn Hv Hp Hev. unfold pipeline_model.
+  intros Hn Hv Hp Hev. unfold pipeline_order.
   destruct (front_cases VS F bs) as [(e & es & t & H & _)|[(d & e & es & H & _)|(d & H & Hparse & _)]]; rewrite H; try reflexivity.
   unfold execute_doc.
   destruct (Exe.ExecModel.get_operation (exe_of_syn d) opname) as [o|p|] eqn:Hg.
@@ -247,8 +249,30 @@ Qed.
 (** [pipeline_never_panics], spelled out on the outcome *)
 Theorem pipeline_never_panics_cases VS F ES bs opname VE W :
   Exe.ExecHyps.type_names_okb ES = true ->
-  match pipeline_model VS F ES bs opname VE W with PPanic _ | POutOfFuel _ => False | _ => True end.
+  match pipeline_order pi VS F ES bs opname VE W with PPanic _ | POutOfFuel _ => False | _ => True end.
 Proof.
   intro Hn. pose proof (pipeline_never_panics VS F ES bs opname VE W Hn) as H.
-  destruct (pipeline_model VS F ES bs opname VE W); try exact I; discriminate.
+  destruct (pipeline_order pi VS F ES bs opname VE W); try exact I; discriminate.
+Qed.
+
+End AnyOrder.
+
+(** ** the order in which Go ranges over the validator's maps does not matter: the same syntax
+    errors, the same accepted document and hence the same response; only the list of validation
+    errors of a rejected document may differ (it is non-empty under both orders) *)
+Theorem pipeline_order_independent pi1 pi2 VS F ES bs opname VE W :
+  Vld.ProofsCommon.order_ok pi1 -> Vld.ProofsCommon.order_ok pi2 ->
+  pipeline_order pi1 VS F ES bs opname VE W = pipeline_order pi2 VS F ES bs opname VE W \/
+  (exists e1 l1 e2 l2, pipeline_order pi1 VS F ES bs opname VE W = PInvalid e1 l1 /\
+                       pipeline_order pi2 VS F ES bs opname VE W = PInvalid e2 l2).
+Proof.
+  intros H1 H2. unfold pipeline_order, parse_and_validate_order.
+  destruct (Syn.FrontEnd.parse_document_bytes bs) as [tree es|]; [|left; reflexivity].
+  destruct es as [|e es]; [|left; reflexivity].
+  destruct tree as [d|]; [|left; reflexivity].
+  unfold validate_doc.
+  destruct (Vld.ValidatorProofs.validate_verdict_order pi1 pi2 VS F (vld_of_syn d) H1 H2)
+    as [(E1 & E2)|(e1 & l1 & e2 & l2 & E1 & E2)]; rewrite E1, E2.
+  - left; reflexivity.
+  - right. exists e1, l1, e2, l2. split; reflexivity.
 Qed.
